@@ -476,6 +476,9 @@ func (u *Unit) applyContract(s *State, f *Frame, x ssa.Value, callee *ssa.Functi
 			} else {
 				goal = u.inFrame(s, loc.key, loc.ref, nil)
 			}
+			if loc.cond != nil {
+				goal = Implies(loc.cond, goal)
+			}
 			fk := fnKey(s.top().Fn)
 			name := u.siteName(fk, "frame", in, "")
 			u.oblige(s, name, "frame", in.Pos(), "callee "+shortKey(key)+" modifies memory outside our modifies clause", goal)
@@ -822,7 +825,81 @@ func (u *Unit) functionApp(s *State, callee *ssa.Function, args []Value, resIdx 
 	}
 	rt := sig.Results().At(resIdx).Type()
 	name := fmt.Sprintf("fn_%s_%d", sanitize(shortKey(fnKey(callee))), resIdx)
-	return u.W.UF(name, sorts, u.W.SortOf(rt), ts...)
+	t := u.W.UF(name, sorts, u.W.SortOf(rt), ts...)
+	u.functionRowFrame(name, callee, args, sorts, keys, reach)
+	return t
+}
+
+// functionRowFrame: a `function` can only read memory reachable from its arguments. For the simple
+// shape "every reference-carrying parameter is a slice of reference-free elements" that means: if two
+// heaps agree on the ROW of each such slice, the results agree (whatever else was written elsewhere).
+// Emitted once per function as an axiom over pairs of applications (trusted base: stated there).
+func (u *Unit) functionRowFrame(name string, callee *ssa.Function, args []Value, sorts []string, keys []string, reach map[string]types.Type) {
+	if u.W.declared[name+"!rowframe"] || len(keys) == 0 {
+		return
+	}
+	sig := callee.Signature
+	var ptypes []types.Type
+	if sig.Recv() != nil {
+		ptypes = append(ptypes, sig.Recv().Type())
+	}
+	for i := 0; i < sig.Params().Len(); i++ {
+		ptypes = append(ptypes, sig.Params().At(i).Type())
+	}
+	if len(ptypes) != len(args) {
+		return
+	}
+	sliceKey := map[int]string{}
+	used := map[string]bool{}
+	for i, pt := range ptypes {
+		r := map[string]types.Type{}
+		reachableHeapTypes(pt, r, 0)
+		if len(r) == 0 {
+			continue
+		}
+		sl, ok := pt.Underlying().(*types.Slice)
+		if !ok || len(r) != 1 {
+			return // a pointer, interface or nested slice parameter: no row frame
+		}
+		k := "S:" + TypeKey(sl.Elem())
+		if _, ok := r[k]; !ok {
+			return
+		}
+		sliceKey[i] = k
+		used[k] = true
+	}
+	for _, k := range keys {
+		if !used[k] {
+			return
+		}
+	}
+	var binders, a, b, hyps []string
+	for i := range args {
+		n := fmt.Sprintf("x!%d", i)
+		binders = append(binders, fmt.Sprintf("(%s %s)", n, sorts[i]))
+		a = append(a, n)
+		b = append(b, n)
+	}
+	hname := map[string][2]string{}
+	for j, k := range keys {
+		h1, h2 := fmt.Sprintf("h1!%d", j), fmt.Sprintf("h2!%d", j)
+		hs := sorts[len(args)+j]
+		binders = append(binders, fmt.Sprintf("(%s %s)", h1, hs), fmt.Sprintf("(%s %s)", h2, hs))
+		a = append(a, h1)
+		b = append(b, h2)
+		hname[k] = [2]string{h1, h2}
+	}
+	for i, k := range sliceKey {
+		hyps = append(hyps, fmt.Sprintf("(= (select %s (s_ref x!%d)) (select %s (s_ref x!%d)))", hname[k][0], i, hname[k][1], i))
+	}
+	sort.Strings(hyps)
+	app1 := fmt.Sprintf("(%s %s)", name, strings.Join(a, " "))
+	app2 := fmt.Sprintf("(%s %s)", name, strings.Join(b, " "))
+	hyp := hyps[0]
+	if len(hyps) > 1 {
+		hyp = "(and " + strings.Join(hyps, " ") + ")"
+	}
+	u.W.Declare(name+"!rowframe", fmt.Sprintf("(assert (forall (%s) (! (=> %s (= %s %s)) :pattern (%s %s))))", strings.Join(binders, " "), hyp, app1, app2, app1, app2))
 }
 
 // reachableHeapTypes: S- and P-heaps (with their element types) reachable from a value of type t.
@@ -915,7 +992,11 @@ func (u *Unit) havocPerModifies(s *State, env *SpecEnv, c *Contract, eff *effect
 		var partial []*specLoc
 		for _, l := range locs {
 			if l.key == k {
-				cond = And(cond, Not(Eq(r, l.ref)))
+				if l.cond != nil {
+					cond = And(cond, Not(And(l.cond, Eq(r, l.ref))))
+				} else {
+					cond = And(cond, Not(Eq(r, l.ref)))
+				}
 				if l.lo != nil {
 					partial = append(partial, l)
 				}
